@@ -233,6 +233,7 @@ def run(ctx):
                     if not any(a.startswith("is:Ok(essential_vm::sync::step_op(") for a in at):
                         bad.append(ex.loc(bb))
         ctx.ob("R3", "pc-updated-only-after-success", not bad, bad[0] if bad else ex.loc(0), "pc assignments not dominated by `step_op(..) is Ok`: %s" % bad, ex)
+    check_stack_effects(ctx, prog, spec, tab, arms)
     # ---- R4 ---------------------------------------------------------------
     for name in ("load", "load_range", "len", "is_empty"):
         f = prog.fn("essential_vm::memory::Memory::" + name)
@@ -258,3 +259,150 @@ def short_circuit_polarity(prog, clo, op):
                 if op == "||" and v == 1 and at == ["Ne(0, a)"]:
                     return True
     return False
+
+
+# ---------------------------------------------------------------------------
+# R5: stack effect (words popped / pushed) of fixed-arity ops and operand discipline
+# ---------------------------------------------------------------------------
+
+S_ = "essential_vm::stack::Stack::"
+POPS = {"pop": 1, "pop2": 2, "pop3": 3, "pop4": 4, "pop8": 8, "pop_len": 1}
+POP_PUSH = {"pop1_push1": (1, 1), "pop2_push1": (2, 1), "pop8_push1": (8, 1), "pop1_push2": (1, 2), "pop2_push2": (2, 2), "pop2_push4": (2, 4)}
+VAR_POPS = {"pop_len_words", "pop_words", "pop_len_words2"}
+PEEKS = re.compile(r"slice::<impl \[T\]>::(last|first|last_mut|first_mut|split_last|split_first|split_last_mut)$")
+
+# ops whose asm.yml stack_in / stack_out entries are one word each (others are variable-length or illustrative)
+FIXED = {
+    "Stack": ["Push", "Pop", "Dup", "DupFrom", "Swap", "Select", "Repeat", "RepeatEnd", "Reserve", "Load", "Store"],
+    "Pred": ["Eq", "Gt", "Lt", "Gte", "Lte", "And", "Or", "Not", "BitAnd", "BitOr"],
+    "Alu": ["Add", "Sub", "Mul", "Div", "Mod", "Shr", "ShrI"],
+    "TotalControlFlow": ["Halt", "HaltIf", "JumpIf", "PanicIf"],
+    "Memory": ["Alloc", "Free", "Load", "Store"],
+    "ParentMemory": ["Load"],
+    "Access": ["RepeatCounter", "PredicateDataLen", "PredicateDataSlots"],
+}
+HANDLER_OF = {  # handler function analysed for ops dispatched to a named function
+    "essential_vm::stack::Stack::dup_from", "essential_vm::stack::Stack::select", "essential_vm::stack::Stack::reserve_zeroed", "essential_vm::stack::Stack::load",
+    "essential_vm::stack::Stack::store", "essential_vm::repeat::repeat", "essential_vm::total_control_flow::halt_if", "essential_vm::total_control_flow::jump_if",
+    "essential_vm::total_control_flow::panic_if", "essential_vm::access::repeat_counter", "essential_vm::access::predicate_data_len", "essential_vm::access::predicate_data_slots",
+    "essential_vm::crypto::recover_secp256k1",
+}
+
+
+def stack_effect(prog, f, seen=None):
+    """(pops, pushes, variable?, peeks) of the Stack calls in f (following Stack::select's nested closures)."""
+    seen = seen or set()
+    pops = pushes = 0
+    var = False
+    peeks = []
+    fns = [f] + prog.find_fns("^" + re.escape(f.path) + r"::\{closure#\d+\}(::\{closure#\d+\})*$")
+    for g in fns:
+        loops = M.natural_loops(g)
+        pv = prog.prov(g)
+        for bb, t in g.calls():
+            if g.blocks[bb]["cleanup"]:
+                continue
+            c = M.callee_of(t)
+            in_loop = any(bb in body for _, body in loops)
+            if PEEKS.search(c) and ("Stack" in " ".join(t.get("arg_tys", [])) or re.search(r"^(self|stack)(\.0)?$", M.render(M.peel(pv.of_operand(t["args"][0]))) if t["args"] else "")):
+                peeks.append(c.split("::")[-1])
+            if not c.startswith(S_):
+                continue
+            m = c[len(S_):]
+            if m in POPS:
+                pops += POPS[m]
+                var = var or in_loop
+            elif m in POP_PUSH:
+                pops += POP_PUSH[m][0]
+                pushes += POP_PUSH[m][1]
+                var = var or in_loop
+            elif m in VAR_POPS:
+                var = True
+            elif m == "push":
+                pushes += 1
+                var = var or in_loop
+            elif m == "extend":
+                ty = M.norm_ty((t.get("arg_tys") or ["", ""])[1])
+                mm = re.match(r"^\[i64; (\d+)\]$", ty)
+                if mm:
+                    pushes += int(mm.group(1))
+                else:
+                    var = True
+    return pops, pushes, var, peeks
+
+
+def check_stack_effects(ctx, prog, spec, tab, arms):
+    ctx.rule("R5", "fixed-arity ops pop len(stack_in) and push len(stack_out) words (asm.yml); op handlers obtain operands only by popping (no peeking at the top of the stack)")
+    n = 0
+    for op in spec:
+        g, v = op["group"], op["name"]
+        if v not in FIXED.get(g, []):
+            continue
+        so = op["stack_out"]
+        want_in = len(op["stack_in"])
+        want_out = len(so) if isinstance(so, list) else 0
+        if (g, v) == ("Crypto", "RecoverSecp256k1"):
+            want_in, want_out = 13, 5
+        f, arm = arms.get((g, v), (None, None))
+        if f is None:
+            continue
+        pops = pushes = 0
+        var = False
+        peeks = []
+        pv = prog.prov(f)
+        handled = False
+        for b, t in arm.calls():
+            c = M.callee_of(t)
+            if c.startswith(S_):
+                m = c[len(S_):]
+                if m in POPS:
+                    pops += POPS[m]
+                elif m in POP_PUSH:
+                    pops += POP_PUSH[m][0]
+                    pushes += POP_PUSH[m][1]
+                elif m == "push":
+                    pushes += 1
+                elif m in VAR_POPS or m == "extend":
+                    var = True
+                elif c in HANDLER_OF:
+                    h = prog.fn(c)
+                    a, b_, v_, pk = stack_effect(prog, h)
+                    pops, pushes, var, peeks = pops + a, pushes + b_, var or v_, peeks + pk
+                    ctx.saw(h)
+                handled = True
+            elif c in HANDLER_OF:
+                h = prog.fn(c)
+                a, b_, v_, pk = stack_effect(prog, h)
+                pops, pushes, var, peeks = pops + a, pushes + b_, var or v_, peeks + pk
+                ctx.saw(h)
+                handled = True
+            elif c == "essential_vm::repeat::Repeat::repeat":
+                handled = True
+        if v == "Halt":
+            handled = True
+        if not handled:
+            continue
+        n += 1
+        # RepeatCounter etc. push through their handler; Select pops cond + 2 and pushes 1
+        ok = (not var) and pops == want_in and pushes == want_out and not peeks
+        ctx.ob("R5", "%s::%s:stack-effect" % (g, v), ok, arm.where(),
+               "handler pops %d word(s) and pushes %d%s%s; asm.yml stack_in %s (%d), stack_out %s (%d)" % (
+                   pops, pushes, " (variable)" if var else "", (", peeks: %s" % peeks) if peeks else "", op["stack_in"], want_in, so, want_out), f)
+    ctx.floor("R5", "fixed-arity ops whose stack effect was compared with asm.yml", n, 35)
+    # operand discipline in every module that implements ops
+    bad = []
+    mods = r"^essential_vm::(stack::Stack::(load|store|dup_from|swap_index|select|select_range|reserve_zeroed|pop\w*|push|extend)|repeat::repeat|total_control_flow::(jump_if|halt_if)|pred::\w+|access::(predicate_data\w*|this_\w+|repeat_counter|predicate_exists)|crypto::(sha256|verify_ed25519|recover_secp256k1|pop_bytes)|state_read::\w+|sync::step_op_(memory|parent_memory|stack))(::\{closure#\d+\})*$"
+    k = 0
+    for h in prog.find_fns(mods):
+        k += 1
+        pvh = prog.prov(h)
+        for bb, t in h.calls():
+            c = M.callee_of(t)
+            if PEEKS.search(c) and t["args"]:
+                recv = M.render(M.peel(pvh.of_operand(t["args"][0])))
+                tys = " ".join(t.get("arg_tys", [])[:1])
+                if re.search(r"^(self|stack)(\.0)?$", recv) or "stack::Stack" in tys:
+                    bad.append((h.path, c.split("::")[-1], h.loc(bb)))
+    # the one legitimate use: parent_memory.last() reads the parent *memory* stack, not the word stack
+    ctx.ob("R5", "operands-are-popped-not-peeked", not bad, bad[0][2] if bad else "crates/vm/src/stack.rs",
+           "op handlers reading the word stack without popping: %s (in %d handler functions)" % ([(a, b) for a, b, _ in bad], k))
